@@ -1348,7 +1348,7 @@ SRef Interpret::sortFromASTNode(ASTNode const & node) const {
         SortSymbol symbol(node.getValue(), 0);
         SSymRef symRef;
         bool known = logic->peekSortSymbol(symbol, symRef);
-        if (not known) { return SRef_Undef; }
+        if (not known or logic->getSortSymbolArity(symRef) != 0) { return SRef_Undef; }
         return logic->getSort(symRef, {});
     } else {
         assert(type == LID_T and node.children and not node.children->empty());
@@ -1356,7 +1356,8 @@ SRef Interpret::sortFromASTNode(ASTNode const & node) const {
         SortSymbol symbol(name.getValue(), node.children->size() - 1);
         SSymRef symRef;
         bool known = logic->peekSortSymbol(symbol, symRef);
-        if (not known) { return SRef_Undef; }
+        // the table of sort symbols is keyed by name: the number of arguments must be compared here
+        if (not known or logic->getSortSymbolArity(symRef) != symbol.arity) { return SRef_Undef; }
         vec<SRef> args;
         for (auto it = node.children->begin() + 1; it != node.children->end(); ++it) {
             SRef argSortRef = sortFromASTNode(**it);
